@@ -1342,7 +1342,7 @@ def compile_match_expression(compiler, expr, root, subject, clauses):
 def compile_pattern(compiler, pattern):
     value, assignment = pattern
     if assignment is not None:
-        if assignment == Symbol("_"):
+        if mangle(assignment) == "_":
             raise compiler._syntax_error(assignment, "can't use `_` as the target of `:as`")
         return compiler.scope.assign(
             asty.MatchAs(
